@@ -24,6 +24,7 @@ type Exec struct {
 	Kids            []simrt.Event // conc child events (EvK / EvKE) attributed to this execution
 	Afters          []simrt.Event
 	Own             []simrt.Event
+	mayPoint        int // >= 0: the last own event announced a statement that may fail (section number)
 }
 
 // CallView is everything observed about one call.
@@ -93,7 +94,7 @@ func BuildViews(r *simrt.Run, calls []*Call) map[int]*CallView {
 			v.Late = append(v.Late, e)
 		}
 		if e.Kind == EvS {
-			x := &Exec{Call: int(e.A), Rule: int(e.B), Ver: int(e.C), Task: e.Task, First: e.Seq, Last: e.Seq, LastOwn: e.Seq, FreshSeq: -1, FirePoint: -1}
+			x := &Exec{Call: int(e.A), Rule: int(e.B), Ver: int(e.C), Task: e.Task, First: e.Seq, Last: e.Seq, LastOwn: e.Seq, FreshSeq: -1, FirePoint: -1, mayPoint: -1}
 			x.Own = append(x.Own, e)
 			v.Execs = append(v.Execs, x)
 			open[e.Task] = x
@@ -131,6 +132,10 @@ func BuildViews(r *simrt.Run, calls []*Call) map[int]*CallView {
 		}
 		x.Own = append(x.Own, e)
 		x.Last, x.LastOwn = e.Seq, e.Seq
+		x.mayPoint = -1
+		if e.Kind == EvAlias && e.C&8 != 0 {
+			x.mayPoint = int(e.C >> 4)
+		}
 		switch e.Kind {
 		case EvE:
 			x.Ended = true
@@ -157,6 +162,12 @@ func BuildViews(r *simrt.Run, calls []*Call) map[int]*CallView {
 		}
 	}
 	for _, v := range views {
+		for _, x := range v.Execs {
+			// a statement that may fail was the last thing the execution did: it failed there
+			if x.mayPoint >= 0 && !x.Ended && !x.Fired {
+				x.Fired, x.FirePoint = true, x.mayPoint
+			}
+		}
 		sort.SliceStable(v.Execs, func(i, j int) bool { return v.Execs[i].First < v.Execs[j].First })
 	}
 	return views
